@@ -1,5 +1,6 @@
 mod asn;
 mod comp;
+mod der;
 mod ev;
 mod gen;
 mod host;
